@@ -286,14 +286,38 @@ class Site:
 def tests_mention(test, target_src):
     """is the `if` test only about the attribute itself (truthiness / is_alive / isinstance)?"""
     src = U(test)
-    allowed = {target_src, target_src + '.is_alive()',
-               '%s and %s.is_alive()' % (target_src, target_src)}
+    allowed = {target_src, target_src + '.is_alive()', target_src + ' is not None',
+               '%s and %s.is_alive()' % (target_src, target_src),
+               '%s is not None and %s.is_alive()' % (target_src, target_src)}
     if src in allowed:
         return True
     if isinstance(test, ast.Call) and isinstance(test.func, ast.Name) and test.func.id == 'isinstance' \
             and test.args and U(test.args[0]) == target_src:
         return True
     return False
+
+
+def kills_in(stmts, target_src):
+    """'always' / 'cond' / None: is `target_src` cancelled (closed, shut down) by these statements"""
+    best = None
+    for st in stmts:
+        r = None
+        if isinstance(st, ast.Expr) and isinstance(st.value, ast.Call):
+            f = st.value.func
+            if isinstance(f, ast.Attribute) and f.attr in KILLERS and U(f.value) == target_src:
+                r = 'always'
+        elif isinstance(st, ast.If):
+            r = kills_in(st.body, target_src)
+            if r == 'always' and not tests_mention(st.test, target_src):
+                r = 'cond'
+        elif isinstance(st, ast.Try):
+            r = kills_in(st.body, target_src) or kills_in(st.finalbody, target_src)
+        elif isinstance(st, ast.With):
+            r = kills_in(st.body, target_src)
+        if r == 'always':
+            return 'always'
+        best = best or r
+    return best
 
 
 def guard_before(fn, stmt, target_src, where):
@@ -303,22 +327,11 @@ def guard_before(fn, stmt, target_src, where):
         raise GenError('%s: statement not found in its function' % where)
     found_cond = False
     for block, idx in path:
-        for st in block[:idx]:
-            if isinstance(st, ast.Expr) and isinstance(st.value, ast.Call):
-                f = st.value.func
-                if isinstance(f, ast.Attribute) and f.attr in KILLERS and U(f.value) == target_src:
-                    return 'GCancel'
-            if isinstance(st, ast.If):
-                inner = None
-                for s2 in st.body:
-                    if isinstance(s2, ast.Expr) and isinstance(s2.value, ast.Call):
-                        f = s2.value.func
-                        if isinstance(f, ast.Attribute) and f.attr in KILLERS and U(f.value) == target_src:
-                            inner = s2
-                if inner is not None:
-                    if tests_mention(st.test, target_src):
-                        return 'GCancel'
-                    found_cond = True
+        r = kills_in(block[:idx], target_src)
+        if r == 'always':
+            return 'GCancel'
+        if r == 'cond':
+            found_cond = True
     return 'GCond' if found_cond else 'GNone'
 
 
@@ -391,6 +404,10 @@ class Unit:
         for m, cname, okind, fname, fn in self.scopes():
             where0 = '%s %s.%s' % (m.rel, cname, fname)
             stmts = list(iter_stmts(fn.body))
+            for lam in (x for x in ast.walk(fn) if isinstance(x, ast.Lambda)):
+                for n in ast.walk(lam.body):
+                    if isinstance(n, ast.Call) and creation_kind(m, n):
+                        raise GenError('%s:%d: creation inside a lambda' % (where0, n.lineno))
             handled_calls = set()
             for st in stmts:
                 for node in own_nodes(st):
@@ -638,7 +655,17 @@ class Unit:
                         and isinstance(st.value.value, ast.Name) and st.value.value.id == 'self':
                     env[t.id] = ('alias', st.value.attr)
                     continue
-                raise GenError('%s: statement in the system_stop path not recognised: %s' % (where, U(st)))
+                continue      # any other assignment: no effect on what is cancelled / joined
+            if isinstance(st, (ast.AugAssign, ast.AnnAssign, ast.Assert, ast.Global, ast.Nonlocal,
+                               ast.Import, ast.ImportFrom, ast.Delete)):
+                continue
+            if isinstance(st, ast.With):
+                self.walk_block(m, c, fn, st.body, env, sink, conds, toplevel, helper)
+                continue
+            if isinstance(st, ast.Expr):
+                continue      # an expression statement that is not a call
+            if isinstance(st, ast.Assign):
+                continue
             if isinstance(st, ast.If):
                 tsrc = U(st.test)
                 about = self.test_is_about_slot(st.test, env)
@@ -676,8 +703,11 @@ class Unit:
                 continue
             if isinstance(st, ast.Return):
                 v = st.value
+                if any(about is None for _, about in conds):
+                    raise GenError('%s: return under a condition in the system_stop path: what follows '
+                                   'is not always executed' % where)
                 if helper or not toplevel:
-                    continue
+                    break         # the rest of the block is dead code
                 if isinstance(v, ast.Call) and isinstance(v.func, ast.Attribute) and v.func.attr == fn.name \
                         and isinstance(v.func.value, ast.Call) and isinstance(v.func.value.func, ast.Name) \
                         and v.func.value.func.id == 'super' and not v.args:
@@ -694,7 +724,7 @@ class Unit:
                 else:
                     raise GenError('%s: return value of system_stop not recognised: %s'
                                    % (where, U(v) if v else 'None'))
-                continue
+                break
             raise GenError('%s: statement in the system_stop path not recognised: %s'
                            % (where, type(st).__name__))
 
@@ -724,9 +754,7 @@ class Unit:
                 if f.attr in STOP_METHODS:
                     self.act(sink, v.attr, STOP_METHODS[f.attr], conds)
                     return
-                if f.attr in ('is_alive', 'put', 'get_nowait', 'clear', 'set'):
-                    return
-                raise GenError('%s: call %s in the system_stop path not recognised' % (where, U(call)))
+                return        # any other method of an attribute: not a cancel / join / shutdown / close
             if isinstance(v, ast.Name):
                 if v.id == 'self':
                     r = self.find_method(f.attr) if not helper else self.find_in_class(c, m, f.attr)
@@ -739,9 +767,7 @@ class Unit:
                     if f.attr in STOP_METHODS:
                         self.act(sink, kind[1], STOP_METHODS[f.attr], conds)
                         return
-                    if f.attr == 'is_alive':
-                        return
-                    raise GenError('%s: call %s not recognised' % (where, U(call)))
+                    return
                 if kind and kind[0] == 'elem':
                     cands = [(hm, hc, st) for hm, hc in self.helpers for st in hc.body
                              if isinstance(st, ast.FunctionDef) and st.name == f.attr]
@@ -757,7 +783,9 @@ class Unit:
                     raise GenError('%s: super().%s() not resolved' % (where, f.attr))
                 self.walk_method(*nxt, env={}, sink=sink, conds=conds, toplevel=False)
                 return
-        raise GenError('%s: call %s in the system_stop path not recognised' % (where, U(call)))
+        # logging.debug(...), print(...), time.sleep(...), a module-level helper: ignoring a call can
+        # only lose stop actions, i.e. make the check stricter, never hide a missing cancel
+        return
 
     def find_in_class(self, c, m, name):
         for st in c.body:
@@ -806,8 +834,36 @@ def units(world):
     return out
 
 
+def outside_functions(tree):
+    """Call nodes of module-level and class-level code (not inside any function)"""
+    todo = list(tree.body)
+    while todo:
+        n = todo.pop()
+        if isinstance(n, (ast.FunctionDef, ast.AsyncFunctionDef, ast.Lambda)):
+            continue
+        if isinstance(n, ast.Call):
+            yield n
+        todo.extend(ast.iter_child_nodes(n))
+
+
+def check_outside(world, repo):
+    """creation sites the per-class tables cannot see: fail closed"""
+    root = os.path.join(repo, 'simulators')
+    shared = [world.common, Mod(os.path.join(root, 'utils.py'), 'utils.py')]
+    for m in shared:
+        for n in ast.walk(m.tree):
+            if isinstance(n, ast.Call) and creation_kind(m, n):
+                raise GenError('%s:%d: background activity created in shared code' % (m.rel, n.lineno))
+    for rel, m in sorted(world.mods.items()):
+        for n in outside_functions(m.tree):
+            if creation_kind(m, n):
+                raise GenError('%s:%d: background activity created at import / class-definition time'
+                               % (rel, n.lineno))
+
+
 def analyse(repo=REPO):
     world = World(repo)
+    check_outside(world, repo)
     us = units(world)
     for u in us:
         u.finish()
